@@ -78,12 +78,14 @@ func (e *EAP) DecodeFromBytes(data []byte, df gopacket.DecodeFeedback) error {
 // SerializationBuffer, implementing gopacket.SerializableLayer.
 // See the docs for gopacket.SerializableLayer for more info.
 func (e *EAP) SerializeTo(b gopacket.SerializeBuffer, opts gopacket.SerializeOptions) error {
-	if opts.FixLengths {
-		e.Length = uint16(len(e.TypeData) + 1)
+	// Code, Id and Length are always present; Type and TypeData follow unless this is
+	// an EAP without Type (Success, Failure).  Length covers the whole EAP packet.
+	size := 4
+	if e.Type != EAPTypeNone || len(e.TypeData) > 0 {
+		size = 5 + len(e.TypeData)
 	}
-	size := len(e.TypeData) + 4
-	if size > 4 {
-		size++
+	if opts.FixLengths {
+		e.Length = uint16(size)
 	}
 	bytes, err := b.PrependBytes(size)
 	if err != nil {
